@@ -454,9 +454,33 @@ def check(pid, tier):
                     open(cl_path, "w").write("\n".join(cases) + "\n")
                     impl, model, oracle, err = run_pipeline(name, prof, cl_path, os.path.join(wdir, "%s.%s" % (name, prof)))
                     if err:
-                        # a crash of the harness process = abort / stack overflow in the implementation
-                        r = replays.write(pid, name, prof, "crash", err + "\nsource: " + label, cases[:50])
-                        tie_problems.append(err)
+                        # a crash of the harness process = abort / stack overflow in the implementation.
+                        # Localise it: the streaming runner writes one line per case line, so the number of
+                        # lines it managed to write names the line (and the case) it died on.
+                        culprit = None
+                        if name not in ISOLATED and "harness run" in err:
+                            so = os.path.join(wdir, "crash.stream.out")
+                            if os.path.exists(so):
+                                os.remove(so)
+                            sh([harness_bin(prof), "run-stream", name, cl_path, so], timeout=RUN_TIMEOUT[0])
+                            n_done = len(open(so, errors="replace").read().split("\n")) - 1 if os.path.exists(so) else 0
+                            if 0 <= n_done < len(cases):
+                                cid = cases[n_done].split(" ", 1)[0]
+                                group = [l for l in cases if l.split(" ", 1)[0] == cid]
+                                gp = os.path.join(wdir, "crash.case.txt")
+                                open(gp, "w").write("\n".join(group) + "\n")
+                                rc2, _ = sh([harness_bin(prof), "run-stream", name, gp, so], timeout=RUN_TIMEOUT[0])
+                                if rc2 != 0:
+                                    culprit = group
+                        if culprit:
+                            found_failing_input = True
+                            r = replays.write(pid, name, prof, "crash",
+                                              "the implementation aborts the process on this case (allocation failure, stack overflow or abort)\n"
+                                              + err + "\nsource: " + label, culprit)
+                            violations.append((r, ""))
+                        else:
+                            r = replays.write(pid, name, prof, "crash", err + "\nsource: " + label, cases[:50])
+                            tie_problems.append(err)
                         continue
                     groups, order = group_by_id(cases)
                     mism, ofail, skipped = analyse(cases, impl, model, oracle)
